@@ -563,7 +563,7 @@ func (cx *Ctx) acceptsOnlyWhen(fn *ssa.Function, holds bool, subs ...string) boo
 	}
 	for _, b := range exits {
 		ok := false
-		for _, ft := range w.blockFacts(fr, b, 0) {
+		for _, ft := range w.exitFacts(fr, b, 0) {
 			if ft.Holds != holds {
 				continue
 			}
